@@ -22,6 +22,9 @@ mod variables;
 mod variant_casts;
 mod write_printer;
 
+#[cfg(feature = "verif")]
+pub mod verif;
+
 #[cfg(test)]
 mod test_utils;
 #[cfg(test)]
